@@ -153,18 +153,6 @@ def check_corpus(case):
         n += 1
         if not judge_its(G, H, its, fails, tag):
             break
-        if tag == "identity":
-            # conversions hand out independent objects: edit the returned graphs, convert the same string again
-            G1, H1 = rsmi_to_graph(v)
-            for g in (G1, H1):
-                for x in list(g.nodes):
-                    g.nodes[x]["charge"] = 9
-                g.remove_edges_from(list(g.edges)[:1])
-            G2, H2 = rsmi_to_graph(v)
-            its2x = rsmi_to_its(v)
-            n += 2
-            if not judge_its(G2, H2, its2x, fails, tag + "/after_edit_of_earlier_result") or not judge_its(G, H, its2x, fails, tag + "/after_edit_of_earlier_result"):
-                break
         judge_decompose(G, H, its, fails, tag, shared_only=False)
         if fails:
             break
@@ -181,6 +169,23 @@ def check_corpus(case):
         if its2 is None or not (same_its(its, its2) or iso_its(its, its2)):
             fails.append(Fail("not_map_equivalent", f"{tag}: ITS of the written-back reaction differs", "atom-map-equivalent reaction", key_extra=tag))
             break
+        if tag in ("identity", "reversal"):
+            # conversions hand out independent objects: edit the graphs returned by the FIRST conversion of this string
+            # (and a later one) in place, then convert the same string again
+            import copy as _copy
+
+            G0, H0 = _copy.deepcopy(G), _copy.deepcopy(H)
+            later = rsmi_to_graph(v)
+            for g in (G, H) + tuple(later):
+                for x in list(g.nodes):
+                    g.nodes[x]["charge"] = 9
+                    g.nodes[x]["hcount"] = 0
+                g.remove_edges_from(list(g.edges)[:1])
+            G2, H2 = rsmi_to_graph(v)
+            its3 = rsmi_to_its(v)
+            n += 2
+            if not judge_its(G0, H0, its3, fails, tag + "/after_editing_earlier_results") or not judge_its(G2, H2, its3, fails, tag + "/after_editing_earlier_results"):
+                break
     return Outcome(nontrivial=bool(cm), outcome=f"centre{min(len(cm), 9)}", fails=fails, transitions=n)
 
 
